@@ -269,6 +269,22 @@ def run(per_type, seed, with_lean=True):
             r2 = h.call({"op": "proto", "fn": "any", "type": k, "hex": b.hex(), "url": (u or "") + "X"})
             if "err" not in r2 or r2["err"]["kind"] != "TypeUrl":
                 divs.append({"kind": "any_accepts_foreign_url", "witness": True, "hex": b.hex(), "type": k, "detail": r2})
+            # the same with an empty payload (an unset Any / an all-default message) and with the URL of another
+            # registered type: a mismatched URL is rejected whatever the payload
+            others = [x["rust_path"] for x in schema.get("type_url_probe", schema["type_urls"]) if x["rust_path"] != k]
+            foreign = [(u or "") + "X", ""]
+            if others:
+                ou = h.call({"op": "proto", "fn": "type_url", "type": others[(len(k) + len(divs)) % len(others)]}).get("ok")
+                if ou and ou != u:
+                    foreign.append(ou)
+            for fu in foreign:
+                for payload in (b"", b):
+                    r3 = h.call({"op": "proto", "fn": "any", "type": k, "hex": payload.hex(), "url": fu})
+                    stats["any_checks"] += 1
+                    if "err" not in r3 or r3["err"]["kind"] != "TypeUrl":
+                        divs.append({"kind": "any_accepts_foreign_url", "witness": True, "hex": payload.hex(), "type": k, "url": fu, "detail": r3,
+                                     "what": "%s::from_any accepts an Any with type_url %r and payload %r" % (k, fu, payload.hex()[:40])})
+                        break
     finally:
         h.close()
         if d is not None:
